@@ -77,6 +77,37 @@ theorem permuting_views_never_copy (f : ViewFn) (d d' : Desc) (v : Bool)
     simp only [ViewFn.apply] at h
     split at h <;> simp_all
 
+/-- **permuting_views_layout_independent.**  For every view op other than basic indexing and `reshape`, whether it
+succeeds, the shape of its result and the fact that the result is a view depend on the operand's *shape* only — never
+on its offset or strides: C-ordered, Fortran-ordered and strided operands of one shape behave alike (`reshape` is the
+one layout-dependent op; `reshape_contig_is_view` / `reshapeNoCopy` say when it copies). -/
+theorem permuting_views_layout_independent (f : ViewFn) (d1 d2 : Desc) (hs : d1.shape = d2.shape)
+    (hf : match f with | .getitem _ => False | .reshape _ => False | _ => True) :
+    (match f.apply d1, f.apply d2 with
+     | .ok (r1, v1), .ok (r2, v2) => r1.shape = r2.shape ∧ v1 = v2
+     | .error e1, .error e2 => e1 = e2
+     | _, _ => False) := by
+  cases f with
+  | getitem ix => cases hf
+  | reshape t => cases hf
+  | transpose axes =>
+    simp only [ViewFn.apply, Desc.transpose, hs]
+    by_cases h : isPerm d2.shape.length axes = true <;> simp [h]
+  | tprop => simp [ViewFn.apply, Desc.T, hs]
+  | expand ax =>
+    simp only [ViewFn.apply, Desc.expandDims, hs]
+    by_cases h : ax ≤ d2.shape.length <;> simp [h]
+  | squeeze ax =>
+    simp only [ViewFn.apply, Desc.squeeze, hs]
+    by_cases h : d2.shape[ax]?.getD 0 = 1 <;> simp [h]
+  | broadcastTo sh =>
+    simp only [ViewFn.apply, Desc.broadcastTo, hs]
+    by_cases h : broadcastableTo d2.shape sh = true <;> simp [h]
+
+/-- non-vacuity: `.T` then a new axis on the C-ordered and on the Fortran-ordered (2,3) window -/
+example : ((ViewFn.tprop).apply (Desc.contig 0 [2, 3])).toOption.map (fun r => (r.1.shape, r.2)) =
+    ((ViewFn.tprop).apply ⟨0, [2, 3], [1, 2]⟩).toOption.map (fun r => (r.1.shape, r.2)) := by decide
+
 /-! ## Non-vacuity: a chain through a transpose and a slice on a gradient laid out like the data -/
 example : applyChain [.tprop, .getitem [.slice none none (-1)], .expand 0] (Desc.contig 0 [2, 3])
     = .ok (⟨2, [1, 3, 2], [0, -1, 3]⟩, true) := by rfl
